@@ -162,6 +162,9 @@ def s13_3(ctx, prog):
         if c['name'] == 'len' and not c.get('local') and 'vec::Vec' in c['def']:
             counter[0] += 1
             return ('app', 'len#%d' % counter[0], tuple(args))
+        if c['name'] == 'is_empty' and not c.get('local') and ('vec::Vec' in c['def'] or 'slice' in c['def']):
+            counter[0] += 1
+            return ('app', 'is_empty#%d' % counter[0], tuple(args))
         return None
 
     def run(tokens):
@@ -219,31 +222,81 @@ def s13_3(ctx, prog):
 
     def err(ret, name):
         return is_adt(ret, 'result::Result', 'Err') and is_adt(ret[4][0], 'error::EvalexprError', name)
-    # ---- end of input (empty token list)
+    # ---- end of input (empty token list): with d levels left on the stack after the remaining sequences are collapsed, the outcome is
+    # UnmatchedLBrace for d >= 2, the single root (popped) for d == 1 and UnmatchedRBrace for d == 0 - however the code asks (a depth
+    # test before the pop, or a pop followed by a test of what is left). Every depth test / pop result along a path is evaluated for
+    # the concrete d, with the pops made so far taken into account.
+    def consistent(eff, d):
+        depth = d
+        popped = {}
+        for e in eff:
+            if e[0] == '<branch>':
+                v, taken = e[2]
+                val = None
+                if v[0] == 'app' and v[1].startswith('binop:') and len(v[2]) == 2:
+                    a, b = v[2]
+                    op = v[1].split(':')[1]
+                    x = depth if (a[0] == 'app' and a[1].startswith('len#') and a[2] == (rs,)) else (a[1] if a[0] == 'c' else None)
+                    y = depth if (b[0] == 'app' and b[1].startswith('len#') and b[2] == (rs,)) else (b[1] if b[0] == 'c' else None)
+                    if x is not None and y is not None and op in ('Gt', 'Ge', 'Lt', 'Le', 'Eq', 'Ne') and (x is depth or y is depth):
+                        val = {'Gt': x > y, 'Ge': x >= y, 'Lt': x < y, 'Le': x <= y, 'Eq': x == y, 'Ne': x != y}[op]
+                elif v[0] == 'app' and v[1].startswith('is_empty#') and v[2] == (rs,):
+                    val = depth == 0
+                elif v[0] == 'app' and v[1].startswith('unop:Not') and v[2][0][0] == 'app' and v[2][0][1].startswith('is_empty#') and v[2][0][2] == (rs,):
+                    val = depth != 0
+                elif v[0] == 'app' and v[1] == 'discriminant' and v[2][0][0] == 'app' and v[2][0][1].split('::')[-1].split('#')[0] == 'pop' and v[2][0][2] == (rs,):
+                    # the pop itself was counted when its call effect was met: it returned Some iff there was something before it
+                    key = v[2][0][1]
+                    if key not in popped:
+                        popped[key] = 1 if depth + 1 > 0 else 0
+                        if popped[key] == 0:
+                            depth += 1      # a pop that returned None removed nothing
+                    val = popped[key]
+                    if val != (taken[1] if taken[0] == 'c' else None) and not (taken[0] == 'sym' and val not in getattr(taken, 'excluded', (0,))):
+                        return False
+                    continue
+                if val is not None and bool(val) != is_true(taken):
+                    return False
+            elif not e[0].startswith('<') and e[0].split('::')[-1] == 'pop' and e[2] and e[2][0] == rs:
+                depth -= 1
+        return True
     shapes = set()
     good = True
-    for ret, eff in p0:
-        if ret == ('diverge',):
-            continue
-        ev, tests = events(eff, rs)
-        deep = bool(tests) and all(h(2) for h in tests) and not all(h(1) for h in tests)     # taken exactly when more than one level remains
-        shallow = bool(tests) and all(h(1) for h in tests) and not all(h(2) for h in tests)
-        if ret == ERR(SYM('collapse_error')):
-            shapes.add('collapse-error')
-            good = good and ev == ['collapse']
-        elif err(ret, 'UnmatchedLBrace'):
-            shapes.add('UnmatchedLBrace')
-            good = good and deep and ev == ['collapse']
-        elif err(ret, 'UnmatchedRBrace'):
-            shapes.add('UnmatchedRBrace')
-            good = good and ev == ['collapse', 'pop']
-        elif is_adt(ret, 'result::Result', 'Ok'):
-            shapes.add('Ok')
-            good = good and shallow and ev == ['collapse', 'pop'] and any(n_.split('::')[-1].split('#')[0] == 'pop' and x_ and x_[0] == rs for n_, x_ in apps(ret))
-        else:
-            shapes.add('? ' + fmt(ret)[:60])
+    detail = []
+    for collapse_ok in (True, False):
+        for d in (0, 1, 2, 3):
+            outs = []
+            for ret, eff in p0:
+                if ret == ('diverge',):
+                    continue
+                is_cerr = ret == ERR(SYM('collapse_error'))
+                ev, _tests = events(eff, rs)
+                if ev[:1] != ['collapse']:
+                    good = False
+                    detail.append('a path does not start with collapse_all_sequences')
+                    continue
+                if is_cerr != (not collapse_ok):
+                    continue
+                if is_cerr:
+                    outs.append('collapse-error')
+                    continue
+                if not consistent(eff, d):
+                    continue
+                if err(ret, 'UnmatchedLBrace'):
+                    outs.append('UnmatchedLBrace')
+                elif err(ret, 'UnmatchedRBrace'):
+                    outs.append('UnmatchedRBrace')
+                elif is_adt(ret, 'result::Result', 'Ok') and any(n_.split('::')[-1].split('#')[0] == 'pop' and x_ and x_[0] == rs for n_, x_ in apps(ret)) and ev.count('pop') == 1:
+                    outs.append('Ok')
+                else:
+                    outs.append('? ' + fmt(ret)[:50])
+            want = 'collapse-error' if not collapse_ok else ('UnmatchedRBrace' if d == 0 else ('Ok' if d == 1 else 'UnmatchedLBrace'))
+            shapes |= set(outs)
+            if sorted(set(outs)) != [want]:
+                good = False
+                detail.append('%d level(s) left%s: %s, expected %s' % (d, '' if collapse_ok else ' (collapse failed)', sorted(set(outs)), want))
     ctx.check(good and shapes == {'collapse-error', 'UnmatchedLBrace', 'UnmatchedRBrace', 'Ok'}, 'S13.3', 'end-of-input', 'end',
-              'at the end the remaining sequences are collapsed (errors passed on), more than one remaining level is UnmatchedLBrace, otherwise the single root is popped and returned (outcomes %s)' % sorted(shapes), span=f.span)
+              'at the end the remaining sequences are collapsed (errors passed on), more than one remaining level is UnmatchedLBrace, exactly one is popped and returned, none is UnmatchedRBrace (outcomes %s; deviations %s)' % (sorted(shapes), detail[:3]), span=f.span)
     # ---- `(`: exactly one fresh root node pushed, no operator node
     good = bool(pl)
     n_l = 0
